@@ -18,7 +18,8 @@ CLAIMS = {
           "hand-over and int-returning registrations (LEAK), released slots that outlive the function are cleared (DANGLE), the five "
           "containers' fallible operations reach a failure return only with the container untouched (ATOMIC, with callee summaries "
           "and success-edge-only effects), realloc never overwrites its argument, and the void deleters/cancels/destructors handle "
-          "every reachable allocation failure locally (INFALLIBLE). Quantifying over every acquisition site's failure edge is what "
+          "every reachable allocation failure locally (INFALLIBLE), and from the NULL edge of every tested acquisition only failure returns "
+          "are reachable, never a fall-through into the success return (REPORTED). Quantifying over every acquisition site's failure edge is what "
           "'failure of the k-th allocation for every k' means structurally; tests sample none of these paths.",
   "note": "Trusted: clang CFG, acquire/release pairing tables (discovered ctor/dtor name pairs + libc/OpenSSL list), two LEAK and "
           "one INFALLIBLE frozen exceptions with reasons. Not decided: leaks on success paths, libc under real exhaustion.",
@@ -31,11 +32,15 @@ CLAIMS = {
           "cancel routines cover every registration kind that can be pending; plus the structural necessary conditions of "
           "byte-exactness: MSG_NOSIGNAL, the exact would-block errno set, EOF routing, identical re-arm, address-cursor advance, "
           "and the transfer window buf+bufpos/buflen-bufpos with bufpos advanced by exactly the kernel's answer; a registration is "
-          "stored only into a slot that is empty on that path (interprocedural through the callers' states). All kernel answer "
+          "stored only into a slot that is empty on that path (interprocedural through the callers' states); a re-arm that cannot be "
+          "made completes the request with -1; and, decided relationally (linear inequalities with Fourier-Motzkin entailment) under "
+          "the pending-request invariant bufpos < buflen, minlen <= buflen: the kernel call gets buf+bufpos and buflen-bufpos >= 1 "
+          "bytes, the count reported is old position + answer within [max(minlen,1), buflen], the invariant holds at the "
+          "constructor's registration and at every re-arm. All kernel answer "
           "sequences reduce to which CFG edges are taken, and every edge is analysed.",
   "note": "Trusted: recv/send/accept/connect contracts, the REARM/CANCEL tables. Not decided: kernel behaviour; allocation-failure "
           "'fatal' paths are accepted as a disposition (C14 covers their leak discipline).",
-  "technique": "static analysis: callback-linearity typestate on clang CFG + sibling/argument agreement rules",
+  "technique": "static analysis: callback-linearity typestate on clang CFG + sibling/argument agreement rules + relational abstract interpretation (linear inequalities)",
   "design_ref": "DESIGN.md section 4, C06",
  },
  "C08": {
@@ -44,7 +49,10 @@ CLAIMS = {
           "a real heap over-read, now fixed); the body budget invariant bodylen + readlen <= limit proved from the dominating guards at "
           "every budget store and append with a tiny linear-fact domain (this rule located a real off-by-two assertion failure/overflow, "
           "now fixed); status gate 100..599 before any completion or body handler; freed request fields cleared before the request is "
-          "passed on; the writer's no-orphan rule (shared with C07). Hostile byte streams only choose CFG edges, and all edges are "
+          "passed on; the writer's no-orphan rule (shared with C07); every acquisition in http.c, netbuf_read.c, netbuf_write.c and "
+          "network_connect.c tested before use and released on every failure path, realloc never over its argument (shared with C14); "
+          "the reader's window invariant and launch preconditions (relational, shared with C07); no field of the malloc'ed request "
+          "read before it is stored along any continuation path. Hostile byte streams only choose CFG edges, and all edges are "
           "analysed.",
   "note": "Trusted: the reader's peek window is exactly buflen readable bytes; libc strto*/sscanf semantics. Not decided: the "
           "line-splitting assertions in header parsing (a counting argument E3 cannot carry), termination, success-path leaks.",
@@ -57,23 +65,30 @@ CLAIMS = {
           "fixed); request head length equals the pieces copied, piece for piece and loop for loop, in wire-grammar order, head before "
           "body; framing precedence HEAD/204/304 > chunked > Content-Length > EOF; the body budget shared with C08 so that bodies at "
           "the limit decode; every character class accepted ahead of a numeric conversion is a digit class of the radix converted "
-          "with (chunk sizes hexadecimal, Content-Length decimal).",
+          "with (chunk sizes hexadecimal, Content-Length decimal); no field of the malloc'ed request (framing flags included) is read "
+          "before it is stored, along direct calls, tail calls and registered callbacks; the header-terminator scan advances only past "
+          "compared positions and records only examined offsets, so a terminator cut by a read boundary is found; the reader under the "
+          "decoder keeps its window invariant and grows/compacts so that any header block or chunk fits (relational, shared with C07).",
   "note": "Not decided: header name/value extraction, OWS trimming and chunk reassembly as string semantics; these quantify over "
           "byte values and are outside shape-level rules.",
   "technique": "static analysis: stale-cursor typestate over the continuation graph, length/piece multiset agreement, dominance rules",
   "design_ref": "DESIGN.md section 4, C09",
  },
  "C07": {
-  "text": "State-discipline clauses of the buffered reader and writer decided on every path: monotone failure flag and its guards at "
+  "text": "The reader's window is decided relationally (abstract interpretation over disjunctions of linear inequalities, entailment by "
+          "Fourier-Motzkin elimination): 0 <= bufpos <= datalen <= buflen, buflen >= 1 is an inductive invariant of netbuf_read.c; at both "
+          "transport launches target == buf+datalen, capacity == buflen-datalen, minimum == len-(datalen-bufpos) as values, minimum >= 1, "
+          "capacity >= minimum on every path through growth and compaction (this is what makes a wait for k bytes report success exactly "
+          "when k bytes have arrived, for every k and every buffer offset). Further, state-discipline clauses of the buffered reader and writer decided on every path: monotone failure flag and its guards at "
           "every launch/reservation, one failure-callback site in return position, in-flight buffer detached/recorded/released "
           "exactly, the transport never asked for zero bytes (this rule located a real assertion failure on zero-length writes, now "
           "fixed; proved on the repaired code by a small disjunctive linear-fact domain), slot discipline of the three pending fields, "
           "the window expressions given to the transport/peek/reserve, the order of the compaction triple, status routing and the "
           "immediate-success condition; a buffer taken off the queue is launched, freed or still reachable (no orphan). Necessary conditions of stream preservation; the refinement itself is not decided.",
-  "note": "Trusted: network_read/write contracts (C06), STAILQ macros. Assumed (recorded in evidence): the reader's capacity "
-          "buflen - datalen is non-zero at its launch, which follows from the three window adjustments by an argument the fact domain "
-          "cannot carry. Not decided: equality of the delivered byte sequence with the sent one over all histories.",
-  "technique": "static analysis: linear-fact dataflow (preconditions, guards), dominance/typestate rules, sibling agreement",
+  "note": "Trusted: STAILQ macros; the transport delivers at most the capacity it was given (its side is decided as N6, which C07 "
+          "runs on network_read.c/network_write.c together with the would-block and completion rules). No obligation is an assumption. "
+          "Not decided: equality of the delivered byte sequence with the sent one over all histories.",
+  "technique": "static analysis: relational abstract interpretation (linear inequalities, Fourier-Motzkin entailment, inlined callees), dominance/typestate rules, sibling agreement",
   "design_ref": "DESIGN.md section 4, C07",
  },
  "C15": {
@@ -83,7 +98,8 @@ CLAIMS = {
           "table positions are dominated by a rejecting validation pass and table indices are bounded below the table size; every "
           "copy-like call into a fixed-size or locally allocated object is bounded by a constant or a dominating length test (linear "
           "facts), the serialised-address decoder reads only what its length tests established; strlen-relative indices need a "
-          "non-empty witness. Truncations and hostile length fields only select CFG edges; all are analysed.",
+          "non-empty witness; a local character array handed to a string function was filled or terminated on every path (fgets only "
+          "on its non-NULL edge). Truncations and hostile length fields only select CFG edges; all are analysed.",
   "note": "Trusted: libc string/conversion functions stay within valid NUL-terminated strings; clang CFG. Not decided: termination; "
           "the command-line parser (C18); humansize_parse's string cursor (needs the correlation state == -1, see C16 for its arithmetic).",
   "technique": "static analysis: cursor-distance abstract domain (E4) + linear-fact dataflow + dominance rules on clang CFG",
@@ -91,12 +107,13 @@ CLAIMS = {
  },
  "C16": {
   "text": "Necessary conditions of exact numeric parsing decided structurally: unsigned conversions must inspect the sign, and the sign "
-          "test must be reached for every non-zero converted value, not only part of the range (this rule located a real wraparound "
-          "on negative numerals, now fixed); the three parsenum siblings have the same decision structure "
+          "test must be reached for every non-zero converted value, not only part of the range, after skipping exactly the isspace() "
+          "characters the conversion itself skips (this rule located a real wraparound on negative numerals, now fixed); the three parsenum siblings have the same decision structure "
           "(EINVAL exactly on no-digits or unwanted trailing characters, else ERANGE on the bound tests, errno cleared first); "
-          "humansize_parse accumulates only behind UINT64_MAX guards, covers its states, maps SI prefixes to the right power of 1000.",
+          "humansize_parse accumulates only behind UINT64_MAX guards, covers its states, maps SI prefixes to the right power of 1000; "
+          "humansize() prints a value within 10..9999 tenths of the unit on the scaled branch, one decimal exactly below 100 (relational).",
   "note": "Trusted: strtod/strtoimax/strtoumax. Not decided: value exactness of libc conversions, the PARSENUM type-classification "
-          "arithmetic, humansize() rounding.",
+          "arithmetic, that humansize()'s division keeps the right digits (truncation vs rounding).",
   "technique": "static analysis: sibling-agreement over branch-edge atoms, overflow-guard dominance",
   "design_ref": "DESIGN.md section 4, C16",
  },
@@ -106,7 +123,9 @@ CLAIMS = {
           "masks, nibble order and padding are checked; every JSON list walker must skip whitespace after a separator or an opening "
           "bracket (this rule located a real defect in nested arrays/objects, now fixed); serialize/deserialize/dup/cmp agree on "
           "sock_addr's fields and sizes; printers emit the form the resolver accepts and both classify address families by the same "
-          "tests.",
+          "tests; b64decode's padding validation ('=' only as a suffix of at most two, counted and subtracted); skip_string consumes the "
+          "character after a backslash whatever it is and four more after \\u; every byte of an object that becomes a sock_addr's name is "
+          "defined (calloc, or malloc plus a full memset/memcpy), since addresses are compared and serialised bytewise.",
   "note": "Not decided: round-trip equality of base-64/hex over all strings, JSON key matching semantics, inet_pton/inet_ntop.",
   "technique": "static analysis: bit-level symbolic evaluation (normal forms), constant tables vs. standards, sibling agreement",
   "design_ref": "DESIGN.md section 4, C17",
@@ -127,11 +146,13 @@ CLAIMS = {
   "text": "Order and propagation clauses decided on every path of the dispatch loop: a must-analysis of 'queues observed empty since "
           "the last dispatch/poll' proves priority by construction at every fetch and at the blocking poll; status is stored, tested, "
           "returned unchanged and stops dispatch; an interrupt test sits between any two dispatches; a fetched event is always "
-          "dispatched; the loop never blocks after a dispatch; a network event is fetched only from a poll made after the last "
-          "dispatch; the blocking time is zero exactly when the earliest deadline has passed and otherwise deadline - now with borrow, "
+          "dispatched; the loop never blocks after a dispatch; after the blocking wait, as after a callback, an interrupt test precedes "
+          "the next dispatch; a network event is fetched only from a poll made after the last dispatch; timers in deadline order as far "
+          "as structure decides it (comparators on nine orderings, key stored before the heap is told, sift directions; shared with "
+          "C04/C13); the blocking time is zero exactly when the earliest deadline has passed and otherwise deadline - now with borrow, "
           "rounded up to milliseconds (decided by walking the comparison code under every ordering); immediate queues insert at the "
           "tail, remove at the head, and minq moves only past queues tested empty.",
-  "note": "Trusted: TAILQ macros, poll(2). Not decided: deadline order of timers (C13/C04), wall-clock waiting.",
+  "note": "Trusted: TAILQ macros, poll(2). Not decided: that the heap order holds over every operation history, wall-clock waiting.",
   "technique": "static analysis: must-dataflow over the dispatch loop's CFG, status/interrupt typestate, queue-discipline rules",
   "design_ref": "DESIGN.md section 4, C05",
  },
@@ -142,7 +163,8 @@ CLAIMS = {
           "position its notifier stored in the record the caller's cookie designates and stores/returns exactly the caller's pointer; "
           "parent/child index arithmetic is guarded and the sift loops use the comparator with the documented sign; deletion can "
           "sift the moved element in both directions, upward exactly when it is smaller than its parent; the underlying array's "
-          "resize contract (C12) is run here too.",
+          "resize contract (C12) is run here too; the timer comparator is the lexicographic order on all nine orderings and the queue "
+          "releases only on its not-later edge (shared with C04).",
   "note": "Trusted: the elastic-array wrappers. Not decided: that sifting restores the heap order for every operation history "
           "(inductive array invariant); comparator totality is C04's O6.",
   "technique": "static analysis: structural pairing (slot write / notification), argument provenance, guarded index normal forms",
@@ -153,9 +175,11 @@ CLAIMS = {
           "exceptions with their repair tests), public getters reach storage only in range, ELASTICARRAY_DECL wrappers agree on the "
           "record size, the byte-layout expressions of append/get/getsize/shrink/export and the queue/map bookkeeping steps, and the "
           "pool's atexit registration and stack discipline; resize() records the requested size on every success return and shrink "
-          "records it itself when resize() fails; the containers' failure atomicity (C14's ATOMIC) is run here as well. These are "
+          "records it itself when resize() fails; resize()'s success post-condition size == nsize <= alloc <= 4 nsize + 3 on all three "
+          "branches (relational, with floor division): the factor-four bound after a successful resize; the containers' failure "
+          "atomicity (C14's ATOMIC) is run here as well. These are "
           "necessary conditions; the refinement of the ideal models is explicitly not decided.",
-  "note": "Not decided: equality with the ideal array/queue/map over operation histories, FIFO order, the factor-4 bound, 'never "
+  "note": "Not decided: equality with the ideal array/queue/map over operation histories, FIFO order, 'never "
           "hands out an object in use' beyond push/pop discipline (invariants over unbounded histories).",
   "technique": "static analysis: overflow-guard dominance, in-range edge rules, sibling agreement, structural layout expressions",
   "design_ref": "DESIGN.md section 4, C12",
@@ -165,7 +189,7 @@ CLAIMS = {
           "primality with its Sophie-Germain half in the thorough tier); blinded_modexp's success path is interpreted algebraically: "
           "each BIGNUM is a linear form over {priv, blinding, 2^256} or a power of the caller's base, so the exported value is "
           "base^(priv + 4*2^256) mod p with the blinding's coefficient exactly zero, all operations on the group-14 modulus, every "
-          "fallible BN step tested; left-padding and the numeric sanity comparison are structural. With OpenSSL's BN semantics "
+          "fallible BN step tested; left-padding (with the length measured on the very value exported) and the numeric sanity comparison are structural. With OpenSSL's BN semantics "
           "trusted this decides the property for all private, peer and blinding values.",
   "note": "Trusted: OpenSSL BN_* semantics; the success path executes every BN call in source order (each is behind an error test).",
   "technique": "static analysis: abstract interpretation with linear forms over the call sequence + constant table vs. standard",
@@ -175,7 +199,9 @@ CLAIMS = {
   "text": "Fail-closed typestate (no generate from an unseeded or stale state; entropy failure propagates before the state is "
           "touched; instantiated set only on success), the SP 800-90A constants and reseed schedule (counter 1..256 => 256 generates "
           "per seed, 65536-byte chunks), and exact call-sequence templates of Instantiate/Reseed/Update/Generate with buffer "
-          "provenance, plus the OS-entropy read loop. Entropy failure at each call is one CFG edge each, all analysed.",
+          "provenance, plus the OS-entropy read loop decided relationally (every read targets the first unwritten byte and asks for "
+          "exactly the rest; success only when the write position reached the end), and the HMAC contexts' typestate. Entropy failure "
+          "at each call is one CFG edge each, all analysed.",
   "note": "Trusted: HMAC-SHA256 (C01 clauses), read(2). Not decided: bit-equality of outputs with a reference DRBG. Noted: when RDRAND "
           "is available the code mixes extra RDRAND output after (re)seeding; its failure is ignored by design.",
   "technique": "static analysis: typestate dataflow + call-sequence template matching against SP 800-90A",
@@ -188,7 +214,9 @@ CLAIMS = {
           "the result; credential scope signed = scope returned; payload hash = hex(SHA-256(body, body ? bodylen : 0)) = returned "
           "content hash; returned timestamp = signed timestamp; presigned query parameters sorted and returned plus the signature); "
           "no signing function keeps state between calls (no static storage written), so a result depends on its arguments and the "
-          "clock only; the HMAC-SHA256 structure rules of C01 are run on the units the signature depends on.",
+          "clock only; the HMAC-SHA256 structure rules of C01 (incl. the context typestate) are run on the units the signature depends on; "
+          "a signing function that cannot allocate fails instead of returning success with the signature unwritten (REPORTED, LEAK, "
+          "NULLCHK on aws_sign.c, shared with C14).",
   "note": "Trusted: strftime/gmtime_r, HMAC_SHA256_Buf/SHA256_Buf/hexify (C01/C17 clauses). Not decided: the numeric signature "
           "bytes against an independent implementation (value equality), percent-encoding (the interface does none).",
   "technique": "static analysis: symbolic rendering of format templates + argument provenance and chain rules",
@@ -202,7 +230,8 @@ CLAIMS = {
           "CRC32C's polynomial, initial state, table generator and step pairing; block-buffer writes are bounded; every argument "
           "passed for a `T p[static N]` parameter designates N elements and restrict-qualified scratch regions of one call never "
           "overlap; the two-word bit counters of SHA-1/MD5 (shift, carry test, high word, word order) and SHA-256's widened counter "
-          "are the specification's. Every output bit depends on these; they are necessary conditions of bit-exactness.",
+          "are the specification's; every streaming context is absorbed into and finalised only while initialised, on every path "
+          "(typestate). Every output bit depends on these; they are necessary conditions of bit-exactness.",
   "note": "NOT decided: that the composition equals the standard functions for every message and partition (numerical equality "
           "over all inputs), one-shot/streaming agreement as an equality of outputs. Trusted: uint32_t arithmetic wraps.",
   "technique": "static analysis: constants vs. independently derived standards, structural decomposition of round statements (normal forms/truth tables)",
@@ -213,8 +242,9 @@ CLAIMS = {
           "the agreed nonce/counter writers and fed to the cipher as nonce_be64 || blockindex_be64; each byte range is read before it is "
           "written (in-place safety); re-initialisation resets position, nonce and the low-byte idiom on every path; the keystream "
           "position bookkeeping (offset bytectr % 16, partial/whole/tail structure, cursors moving by exactly the bytes used; the AES-NI "
-          "loop re-encodes its block counter once per block inside the loop and writes the last counter back) agrees between the "
-          "portable and the AES-NI code.",
+          "loop re-encodes its block counter once per block inside the loop and writes the last counter back on every path) agrees "
+          "between the portable and the AES-NI code; the accelerated stream code is selected only through the key layer's validated "
+          "selection (dispatch rules shared with C03).",
   "note": "NOT decided: FIPS-197 equality of the block cipher (OpenSSL / AES-NI numerics), partition independence and "
           "encrypt-twice-restores as equalities of byte strings, counter carry beyond the low byte as a value property.",
   "technique": "static analysis: who-may-write rule, sibling agreement, dominance/order rules on clang CFG",
@@ -228,7 +258,8 @@ CLAIMS = {
           "preconditions; ISA flags appear only on accelerated units; sibling dispatchers agree on the selector and the accelerated "
           "branch excludes the portable one; the accelerated units use no sign-dependent vector operation and their byte-swap "
           "shuffles are byte swaps (the one class of error the library's self-test vectors, which have no byte with the top bit "
-          "set, cannot see); the AES-NI CTR sibling obeys C02's counter rules.",
+          "set, cannot see); the SSE4.2 CRC routine reads every operand at its running cursor and the reads tile exactly what each "
+          "advance skips; the AES-NI CTR sibling obeys C02's counter rules.",
   "note": "NOT decided: bit-equality of accelerated and portable results for all inputs -- delegated to the library's own run-time "
           "self-tests, whose wiring is what G2 verifies (a wrong constant in an accelerated transform is caught there and falls back, "
           "so the property still holds; no table rule is armed for those units) and whose known blind spot G5 closes. ARM units "
